@@ -473,8 +473,8 @@ class _AbstractSampler(_ABC):
         self._write_tuning_settings()
 
         # Create attributes before sampling, such that SWMR works
-        self.samples.write_attribute("write_index", -1)
-        self.samples.write_attribute("last_written_sample", -1)
+        # (write_index and last_written_sample are created, and kept up to date, by the
+        # samples object itself.)
         self.samples.write_attribute("proposals", self.proposals)
         self.samples.write_attribute("acceptance_rate", 0)
         self.samples.write_attribute("online_thinning", self.online_thinning)
